@@ -257,6 +257,9 @@ func scenario(c cfg) *mcx.Scenario {
 					}
 				}
 				vrt.Metric("datagrams_relayed", int64(len(delivered)))
+				if len(delivered) >= 390 {
+					fail("exchange-never-ends", "the two endpoints are still exchanging datagrams after %d deliveries (%d ticks): the exchange neither completes nor fails", len(delivered), ticks)
+				}
 				// let block-wise state expire, then look at the outcome
 				vrt.Quiesce("relay: done")
 			})
